@@ -32,11 +32,11 @@ def describe(ints, verdict, case_json):
         d["Ticks"] = dict(status=nxt(), major=fl(), minor=fl())
         nl = nxt()
         d["levels"] = [dict(level=nxt(), CountTicks=nxt(), status=nxt(), TicksAtLevel=fl()) for _ in range(nl)]
-        d["Nice"] = dict(status=nxt(), Min=_f(nxt()), Max=_f(nxt()))
+        d["Nice"] = dict(status=nxt(), Min=_f(nxt()), Max=_f(nxt()), MapOfNewMin=_f(nxt()), MapOfNewMax=_f(nxt()))
         d["NiceTwice"] = dict(status=nxt(), Min=_f(nxt()), Max=_f(nxt()))
         d["TicksAfterNice"] = dict(status=nxt(), major=fl())
         d["failing_check"] = {10: "Ticks(o) major/minor", 20: "CountTicks/TicksAtLevel at a level", 30: "Nice(o) new Min/Max",
-                              40: "Nice is idempotent", 41: "first/last major tick after Nice equal the new bounds",
+                              40: "Nice is idempotent", 41: "first/last major tick after Nice equal the new bounds", 43: "Map(new Min)=0 / Map(new Max)=1 after Nice",
                               1: "panic status of Ticks", 2: "panic status of Nice"}.get(verdict[2], str(verdict[2]))
         return d
     except Exception as e:  # never let decoding break a report
